@@ -1,5 +1,3 @@
 SPECIFICATION Spec
-CONSTANTS
-  Bug_ExtStatSwap = FALSE
 INVARIANT EventOk
 CHECK_DEADLOCK FALSE
